@@ -220,18 +220,32 @@ def parseImpl (ls : List String) : Option (List IResult) :=
       { found := r.found.reverse, merr := r.merr.reverse,
         stacks := r.stacks.reverse.map fun st => st.reverse.map fun fl => fl.reverse })
 
-/-- the oracle respects the lookup contract on every requested pair (decidable form of `OracleOk`) -/
-def oracleOkB (look : Look) (req : Request) : Bool :=
-  req.jobs.all fun job => job.stacks.all fun st => st.all fun fr =>
+/-- the libraries with a requested address on which the oracle breaks the lookup contract (decidable form of
+`¬ OracleOk`): symbol start above the address, or an empty debug-info frame list -/
+def contractBreakers (look : Look) (req : Request) : List Lib :=
+  (req.jobs.flatMap fun job => job.stacks.flatMap fun st => st.filterMap fun fr =>
     match job.memoryMap[fr.moduleIndex]? with
-    | none => true
+    | none => none
     | some lib =>
       match look lib with
-      | .error _ => true
+      | .error _ => none
       | .ok f =>
         match f fr.address with
-        | none => true
-        | some info => decide (info.symAddr ≤ fr.address) && decide (info.frames.resolved ≠ some [])
+        | none => none
+        | some info =>
+          if decide (info.symAddr ≤ fr.address) && decide (info.frames.resolved ≠ some []) then none
+          else some lib).eraseDups
+
+/-- is `lib` served by a synthetic (table-driven) symbol map of the world line? (`DebugId::from_breakpad`
+does not distinguish upper / lower case hex digits, so neither does this) -/
+def isSynthetic (ops : List String) (lib : Lib) : Bool :=
+  match ops with
+  | w :: _ =>
+    (words w).any fun t =>
+      match t.splitOn ":" with
+      | "syn" :: n :: i :: _ => unhex n = lib.debugName && (unhex i).toUpper = lib.breakpadId.toUpper
+      | _ => false
+  | [] => false
 
 def judgeFrames (look : Look) (job : Job) (j s : Nat) : Nat → List ReqFrame → List (List String) → Bool × String
   | _, [], [] => (true, "ok")
@@ -317,7 +331,12 @@ def judge (ops impl : List String) : Bool × String :=
         if impl = ["error bad-index"] then (true, "ok")
         else (false, s!"bad-index: a module index is outside its memory map, want [error bad-index], got [{" | ".intercalate (impl.take 3)}]")
       else if !o.complete req then (true, "skipped: oracle incomplete for this request")
-      else if !oracleOkB o.look req then (true, "skipped: oracle breaks the lookup contract (excluded point; model and code are compared)")
+      else if !(contractBreakers o.look req).isEmpty then
+        -- excluded point of C07_total. Only a synthetic symbol map may do that (model and code are then
+        -- compared on `panic`); a real symbol file doing it makes the API panic on a well-formed request.
+        if (contractBreakers o.look req).all (isSynthetic ops) then
+          (true, "skipped: a synthetic symbol map breaks the lookup contract (excluded point)")
+        else (false, "no-panic: the direct lookup of a real symbol file reports a symbol start above the address or an empty frame list; the implementation cannot answer this frame")
       else if impl.contains "panic" then (false, "no-panic: implementation panicked")
       else match impl with
         | l :: _ =>
